@@ -85,7 +85,7 @@ def encWpNoSlot (w : Wp) : String :=
 
 def dump (r : Res) (s : Sys) : String :=
   -- every thread of the kernel: the registered ones and the newborn (cleared registers)
-  let ths := encImg s.main :: sortStr ((s.others ++ s.newborn.map (fun _ => ({} : Img))).map encImg)
+  let ths := encImg s.main :: sortStr ((s.others ++ s.newborn.map (fun _ => kernelNewThread s.main)).map encImg)
   let cs := sortStr (s.comps.map fun c => s!"{c.addr}:{c.wps.length}")
   s!"{encRes r} | {";".intercalate ths} | {encList encWp s.wps} | {encList id cs}"
 
